@@ -1122,6 +1122,12 @@ class Exec:
             if isinstance(base, VOpt):
                 s = self.implicit_exc(s, "AttributeError", base.isnone, f"none.{e.attr}")
                 base = base.inner
+            if isinstance(base, VVal) and e.attr == "args":
+                # the argument tuple of a caught exception: one message string (every raise site of the
+                # library's own exception classes passes a message)
+                self.notes.append("exception .args modelled as a one-element tuple (message)")
+                out.append((VTuple([fresh("str", "excmsg")]), s))
+                continue
             if isinstance(base, VObj):
                 pc = self.find_contract(base.kind, e.attr)
                 if pc is not None and pc.is_property:
